@@ -429,8 +429,11 @@ class STRING( STRUCT ):
         leng[None] = sbdy	= string_bytes(		'string',
                                                         limit='..length',
                                                         initial='.*',	decode='iso-8859-1' )
+        # The .length limits what the string may consume; what remains of the input may be less.  Only
+        # a string of all .length octets is complete (a short one awaits a pad that doesn't arrive).
         sbdy[None]		= decide(		'string_even',
-                                    predicate=lambda path=None, data=None, **kwds: 0 == data[path].length % 2,
+                                    predicate=lambda path=None, data=None, **kwds: (
+                                        0 == data[path].length % 2 and len( data[path].string ) == data[path].length ),
                                     state=octets_noop(	'done',
                                                         terminal=True ))
         sbdy[None]		= octets_drop(		'pad', repeat=1,
